@@ -93,8 +93,8 @@ async def scenario(world: WorldA) -> None:
                 raise HarnessError("connection was lost on a benign network")
             if op["gap"]:
                 await asyncio.sleep(op["gap"])
-            if not spa.is_responding_to_pings:
-                # the library's own gate; on a benign network it must be open whenever a ping period has not been skipped
+            gate_closed = not spa.is_responding_to_pings
+            if gate_closed:
                 res.probe("gate_closed_at_command")
             kind = op["op"]
             mark = len(model.commands)
@@ -187,6 +187,14 @@ async def scenario(world: WorldA) -> None:
             await settle()
             cmds = model.commands[mark:]
             real = [c for c in cmds if not c.get("dup")]
+            if len(real) == 0 and expect["n"] == 1 and gate_closed:
+                # the spa answers every ping on this benign network, yet the library's ping gate was closed and the command
+                # was dropped without any error: recorded (not raised) so that the rest of the history is still judged
+                from geckolib.config import GeckoConfig as _GC
+                world.note(PROP, "command-dropped", f"{ctx}: silently dropped: is_responding_to_pings was False although the spa answers "
+                           f"every ping (last reply older than 2 x PING_FREQUENCY={_GC.PING_FREQUENCY_IN_SECONDS}s after the timing table changed "
+                           f"or while the lock delayed the ping)", sig="command-dropped:ping-gate-closed-on-benign-network")
+                continue
             if len(real) != expect["n"]:
                 world.violate(PROP, "command-count", f"{ctx}: {len(real)} command datagram(s) reached the spa, expected {expect['n']}: "
                               f"{[c['raw'][:16] for c in real]}", sig="command-count:" + ("extra" if len(real) > expect["n"] else "missing"))
